@@ -35,6 +35,24 @@ SetterFails(busy, kind, valid, outcome, before, after) ==
      THEN {F_(IF valid THEN "C10" ELSE "C19", <<"refused setter changed the circuit", kind>>, "setter-sideeffect")}
      ELSE {})
 
+\* C19: the parameter constructor: efforts outside 1..9 are refused with an error, every effort 1..9 gives parameters
+\* that pass the check
+CtorFails(which, effort, outcome, passes) ==
+    IF which = "LegalizationParameters" /\ effort \notin 1..9 THEN {}   \* this constructor does not use the effort
+    ELSE IF effort \in 1..9
+    THEN (IF outcome = "ok" /\ passes THEN {} ELSE {F_("C19", <<"effort in 1..9 refused or its parameters fail the check", effort, outcome, passes>>, "effort-valid")})
+    ELSE (IF outcome = "error" THEN {} ELSE {F_("C19", <<"effort outside 1..9 accepted", effort>>, "effort-invalid")})
+
+\* C19: a parameter field driven outside / on / inside one bound of its documented range
+ParamValidExpected(rel, incl) == rel = "inside" \/ (rel = "at" /\ incl)
+ParamCheckFails(ev) ==
+    IF ev.outcome = "skip" THEN {}
+    ELSE LET valid == ParamValidExpected(ev.rel, ev.incl) IN
+         (IF (ev.outcome = "ok") # valid
+          THEN {F_("C19", <<"parameter check", ev.field, ev.bound, ev.rel, "expected valid", valid, "got", ev.outcome>>, "param-" \o ev.field)} ELSE {}) \cup
+         (IF ~valid /\ ev.outcome = "error" /\ ~(ev.rejectedCall /\ ev.sameAfter)
+          THEN {F_("C19", <<"rejected parameters reached placement work or modified the circuit", ev.field>>, "reject-late")} ELSE {})
+
 \* callback grammars
 RECURSIVE AllIn(_, _)
 AllIn(s, S) == \A k \in 1..Len(s) : s[k] \in S
